@@ -164,8 +164,10 @@ func StructToMap(data any) map[string]any {
 		fv := rv.Field(i)
 		fieldValue := fv.Interface()
 
-		// Recursively convert nested structs
-		if fv.Kind() == reflect.Struct || (fv.Kind() == reflect.Ptr && fv.Type().Elem().Kind() == reflect.Struct) {
+		// Recursively convert nested structs (a nil pointer stays nil: it must not turn into an empty, truthy map)
+		if fv.Kind() == reflect.Ptr && fv.IsNil() {
+			fieldValue = nil
+		} else if fv.Kind() == reflect.Struct || (fv.Kind() == reflect.Ptr && fv.Type().Elem().Kind() == reflect.Struct) {
 			fieldValue = StructToMap(fieldValue)
 		}
 
@@ -216,7 +218,10 @@ func PopulateStructFields(m map[string]any, data any) {
 		fieldValue := fv.Interface()
 
 		// Convert nested structs to maps so they can be accessed with JSON tag paths
-		if fv.Kind() == reflect.Struct || (fv.Kind() == reflect.Ptr && fv.Type().Elem().Kind() == reflect.Struct) {
+		// (a nil pointer stays nil: it must not turn into an empty, truthy map)
+		if fv.Kind() == reflect.Ptr && fv.IsNil() {
+			fieldValue = nil
+		} else if fv.Kind() == reflect.Struct || (fv.Kind() == reflect.Ptr && fv.Type().Elem().Kind() == reflect.Struct) {
 			fieldValue = StructToMap(fieldValue)
 		}
 
